@@ -138,9 +138,9 @@ func Solve(tr *TargetResult, opts *SolveOpts) []*OblResult {
 	for i, o := range tr.Obls {
 		results[i] = &OblResult{Obl: o, Status: "unknown"}
 		if opts.CacheDir != "" {
-			if data, err := os.ReadFile(filepath.Join(opts.CacheDir, hashOf(tr.ScriptFor(o.Cond), o.Cond))); err == nil {
+			if data, err := os.ReadFile(filepath.Join(opts.CacheDir, tr.KeyFor(o.Cond))); err == nil {
 				parts := strings.Fields(string(data))
-				if len(parts) >= 2 && (parts[0] == "unsat" || (o.Cover && parts[0] == "sat")) {
+				if len(parts) >= 2 && ((parts[0] == "unsat" && !o.Cover) || (o.Cover && (parts[0] == "sat" || parts[0] == "unknown"))) {
 					results[i].Status, results[i].Solver, results[i].Cached = parts[0], parts[1], true
 					continue
 				}
@@ -157,8 +157,11 @@ func Solve(tr *TargetResult, opts *SolveOpts) []*OblResult {
 			os.MkdirAll(opts.CacheDir, 0o755)
 			for _, i := range first {
 				r := results[i]
-				if r.Status == "unsat" || (r.Obl.Cover && r.Status == "sat") {
-					os.WriteFile(filepath.Join(opts.CacheDir, hashOf(tr.ScriptFor(r.Obl.Cond), r.Obl.Cond)), []byte(r.Status+" "+r.Solver+"\n"), 0o644)
+				if r.Obl.Cover && r.Status == "timeout" {
+					r.Status = "unknown"
+				}
+				if (r.Status == "unsat" && !r.Obl.Cover) || (r.Obl.Cover && (r.Status == "sat" || r.Status == "unknown")) {
+					os.WriteFile(filepath.Join(opts.CacheDir, tr.KeyFor(r.Obl.Cond)), []byte(r.Status+" "+r.Solver+"\n"), 0o644)
 				}
 			}
 		}()
@@ -190,8 +193,15 @@ func Solve(tr *TargetResult, opts *SolveOpts) []*OblResult {
 			file := filepath.Join(opts.TmpDir, fmt.Sprintf("p_%s_%d.smt2", tag, i))
 			os.WriteFile(file, []byte(tr.ScriptFor(tr.Obls[i].Cond)+"(assert "+tr.Obls[i].Cond+")\n(check-sat)\n"), 0o644)
 			defer os.Remove(file)
-			st, raw, d := runSolver(context.Background(), solvers[0], file, batchT)
+			bt := batchT
+			if tr.Obls[i].Cover && bt > 2 {
+				bt = 2 // a vacuity probe: only a quick `unsat` (no execution satisfies the contract) matters
+			}
+			st, raw, d := runSolver(context.Background(), solvers[0], file, bt)
 			results[i].Status, results[i].Solver, results[i].Time, results[i].Raw = st, "z3-new", d, firstLines(raw, 2)
+			if tr.Obls[i].Cover && st != "unsat" {
+				return // witnessed (sat) or not refuted within the probe's budget
+			}
 			if !results[i].OK() || st == "sat" && !tr.Obls[i].Cover {
 				restMu.Lock()
 				rest = append(rest, i)
